@@ -341,10 +341,12 @@ impl<F: Float> GaussianMixtureModel<F> {
         observations: &ArrayBase<D, Ix2>,
     ) -> (Array1<F>, Array2<F>) {
         let weighted_log_prob = self.estimate_weighted_log_prob(observations);
-        let log_prob_norm = weighted_log_prob
+        let max = weighted_log_prob.fold_axis(Axis(1), F::neg_infinity(), |&a, &b| a.max(b));
+        let log_prob_norm = (&weighted_log_prob - &max.view().insert_axis(Axis(1)))
             .mapv(|x| x.exp())
             .sum_axis(Axis(1))
-            .mapv(|x| x.ln());
+            .mapv(|x| x.ln())
+            + &max;
         let log_resp = weighted_log_prob - log_prob_norm.to_owned().insert_axis(Axis(1));
         (log_prob_norm, log_resp)
     }
